@@ -305,7 +305,9 @@ func c07Head(s string) string {
 
 // withBudget (VM step budget -> DIVERGE, panics -> PANIC) plus a wall-clock deadline -> HANG:
 // a reader that spins inside one VM step never reaches the step hook
-func c07Deadline(f func() string) string {
+func c07Deadline(f func() string) string { return c07DeadlineN(f, 1) }
+
+func c07DeadlineN(f func() string, n int) string {
 	done := make(chan string, 1)
 	go func() {
 		defer func() {
@@ -313,7 +315,7 @@ func c07Deadline(f func() string) string {
 				done <- "PANIC " + hx(fmt.Sprint(p))
 			}
 		}()
-		done <- withBudget(f)
+		done <- withBudgetN(f, n)
 	}()
 	select {
 	case r := <-done:
@@ -335,10 +337,22 @@ func opC07Eng(fields []string) string {
 	}
 	path, cleanup := c07Scratch(content)
 	defer cleanup()
-	fileRes := c07Deadline(func() string {
-		return canonMatches(v.RunFiles([]string{path}, engine.NOTHING, false))
+	paths := []string{path}
+	twice := len(fields) > 2 && fields[2] == "twice" && !strings.Contains(src, "\n")
+	if twice {
+		// the same path listed twice: a single-command program must report its matches twice
+		paths = []string{path, path}
+	}
+	fileRes := c07DeadlineN(func() string {
+		return canonMatches(v.RunFiles(paths, engine.NOTHING, false))
+	}, len(paths))
+	strRes := c07Deadline(func() string {
+		ms := v.Run(string(content))
+		if twice {
+			ms = append(append(engine.Matches{}, ms...), ms...)
+		}
+		return canonMatches(ms)
 	})
-	strRes := c07Deadline(func() string { return canonMatches(v.Run(string(content))) })
 	c07NoteHang(fileRes)
 	c07NoteHang(strRes)
 	if fileRes == strRes {
@@ -580,6 +594,12 @@ var c07Programs = []string{
 	"find all at least 1 (not in 'a' to 'e', ' ') line end",
 	"find all between 2 and 4 letter not letter",
 	"find all line start whole line",
+	// several commands over the same file: every command reads the file afresh
+	"replace all 'QQ' with 'q'\nfind all 'ZZ'",
+	"replace all (at least 1 digit) = d with d d\nreplace all upper with '_'",
+	"find all 'QQ'\nreplace all 'ZZ' with ''\nfind all at least 1 digit",
+	"set w to pattern at least 1 letter\nfind all w ' ' w\nfind all w line end",
+	"replace top 2 'QQ' with 'x'\nreplace last 1 'ZZ' with 'y'\nfind all whole line",
 }
 
 func c07Sizes(r *rand.Rand, tier string) []int {
@@ -641,10 +661,15 @@ func init() {
 					if r.Intn(3) == 0 {
 						kind = "u"
 					}
+					fl := []string{hx(src), fmt.Sprintf("%s:%d:%d", kind, r.Intn(100000), n)}
+					if r.Intn(5) == 0 {
+						fl = append(fl, "twice")
+						st.Counts["engine-runs-path-twice"]++
+					}
 					cases = append(cases, Case{
 						ID:     fmt.Sprintf("e%d", k),
 						Op:     "c07eng",
-						Fields: []string{hx(src), fmt.Sprintf("%s:%d:%d", kind, r.Intn(100000), n)},
+						Fields: fl,
 						Meta:   map[string]string{},
 					})
 					k++
